@@ -120,6 +120,9 @@ Definition lattice_same (c : c02_case) (a : nat) (i : list fconcept) : bool :=
   match from_context_lattice (ctx_of c) a (c_ie c) (c_lmax c) 12 with
   | LView v =>
       list_eqb concept_eqb (map pair_c i) (lv_concepts v) &&
+      (* the model's name views are the images of its index views (views_agree) *)
+      forallb (fun x => nat_list_eqb (c_ext x) (map (fun g => nth g (c_onames c) 0) (c_ext_i x)) &&
+                        nat_list_eqb (c_int x) (map (fun m => nth m (c_anames c) 0) (c_int_i x))) i &&
       Nat.eqb (length (c_rel c)) (length i) &&
       forallb (fun k => same_setb (r_children (rel_at c k)) (lv_children v k) &&
                         same_setb (r_parents (rel_at c k)) (lv_parents v k) &&
